@@ -1202,6 +1202,18 @@ def judge_lines(lines, extents, contiguous_from_0):
     return problems
 
 
+def hole_section(r, base, first_len, skip, size):
+    """a blob whose first part [0, first_len) lies on the first page and whose second part starts
+    on page 1 + skip (tag type base + 1 + skip): `skip` whole tag types are missing in between"""
+    img = rbytes(r, first_len + 600)
+    nfirst = -(-first_len // size)
+    sizes = iter([min(size, first_len - k * size) for k in range(nfirst)])
+    lines, ext = image_lines(r, img, base, lambda: next(sizes, size),
+                             gap=(nfirst, (1 + skip) * 0x10000 - first_len))
+    s = Sec(base, img, lines, ext, group_lines(r, lines, base), "gap")
+    return lines, ext, s
+
+
 def report(ctx, problems, data):
     """record at most 4 failing inputs per kind of violation (small ones come first in the search)"""
     seen = ctx.extra.setdefault("_per_kind", {})
@@ -1245,6 +1257,19 @@ def search(ctx):
                 ctx.case(("gap", nlines, gi, glen, base, size))
                 ctx.dist["search:gap-position"] += 1
                 report(ctx, judge_lines(lines, ext, False), {"lines": [list(map(jl, l)) for l in lines], "extents": jext(ext), "contig": False})
+    # 1b. page holes: the continuation pages of a blob are not consecutive tag types (one or two
+    # tag types skipped), with the page before the hole full and not full: a gap of whole pages
+    for base in (0x35, 0x39, 0x40):
+        for first_len in (0x10000, 0x10000 - 250, 0x8000, 1):
+            for skip in (1, 2):
+                lines, ext, s = hole_section(r, base, first_len, skip, 250)
+                ctx.case(("page-hole", base, first_len, skip))
+                ctx.dist["search:page-hole"] += 1
+                data = {"hole": [base, first_len, skip, 250]}
+                pr = judge_lines(lines, ext, False)
+                hdr = [("Bf3Update", "1")]
+                pr += judge_file(render_file(r, hdr, [s], junk=False), hdr, [s], True, names)
+                report(ctx, [("page-hole-" + k, d) for k, d in pr], data)
     # 2. page crossings: images around 64 KiB, lines ending at / straddling the boundary
     for base in (0x35, 0x39, 0x3D, 0x40):
         for total, size, straddle in ((0x10000, 250, False), (0x10001, 250, False), (0xFFFF, 249, False), (0x10000 + 7, 250, True),
@@ -1349,6 +1374,21 @@ def replay(ctx, data):
             print("implementation unpack:", run_impl(lambda: [(a, len(x)) for a, x in m.Bf3File.bf2_unpack_payload(bl).items()]))
             print("laid out:", [(a, len(x)) for a, x in ext])
             pr = judge_lines(lines, ext, d["contig"])
+            for p in pr:
+                print("  VIOLATED:", p)
+            rc |= bool(pr)
+        elif d.get("hole"):
+            import random
+            base, first_len, skip, size = d["hole"]
+            r = random.Random(1)
+            lines, ext, s = hole_section(r, base, first_len, skip, size)
+            print("page-hole section: tag type 0x%02X, %d bytes on the first page, then tag type 0x%02X" % (
+                base, first_len, base + 1 + skip))
+            m = M()
+            print("implementation unpack:", run_impl(lambda: [(a, len(x)) for a, x in m.Bf3File.bf2_unpack_payload(mk_binlines(lines)).items()]))
+            print("laid out:", [(a, len(x)) for a, x in ext])
+            hdr = [("Bf3Update", "1")]
+            pr = judge_lines(lines, ext, False) + judge_file(render_file(r, hdr, [s], junk=False), hdr, [s], True, names)
             for p in pr:
                 print("  VIOLATED:", p)
             rc |= bool(pr)
